@@ -177,6 +177,108 @@ fn fixed_tonumber() -> Vec<Value> {
     std::fs::read_to_string(corpus::root().join("corpus/js_tonumber.jsonl")).unwrap_or_default().lines().filter_map(|l| serde_json::from_str::<Value>(l).ok()).collect()
 }
 
+/// model-free consequences of "the exact IEEE double of the JavaScript conversion"
+fn check_laws(case: &Value, obs: &mut Obs) -> Result<(), String> {
+    let a = &case["a"];
+    let b = &case["b"];
+    let c = &case["c"];
+    let data = json!({"a": a, "b": b, "c": c});
+    let (va, vb, vc) = (json!({"var": "a"}), json!({"var": "b"}), json!({"var": "c"}));
+    let num = |v: &Option<Value>| v.as_ref().and_then(|x| x.as_f64());
+    let same = |x: &Option<Value>, y: &Option<Value>| -> bool {
+        match (x, y) {
+            (None, None) => true,
+            (Some(p), Some(q)) => model::values_match(p, q),
+            _ => false,
+        }
+    };
+    let mut exercised = 0;
+    // IEEE addition and multiplication commute
+    for op in ["+", "*", "max", "min"] {
+        let ab = run(&op2(op, &va, &vb), &data, obs)?;
+        let ba = run(&op2(op, &vb, &va), &data, obs)?;
+        if !same(&ab, &ba) {
+            return Err(format!("{} is not commutative: [a,b] -> {:?} but [b,a] -> {:?} for a = {} b = {}", op, ab.map(|v| v.to_string()), ba.map(|v| v.to_string()), a, b));
+        }
+        if ab.is_some() {
+            exercised += 1;
+        }
+    }
+    // max / min do not depend on the order of three operands
+    for op in ["max", "min"] {
+        let x = run(&opn(op, &[va.clone(), vb.clone(), vc.clone()]), &data, obs)?;
+        let y = run(&opn(op, &[vc.clone(), va.clone(), vb.clone()]), &data, obs)?;
+        if !same(&x, &y) {
+            return Err(format!("{} depends on operand order: {:?} vs {:?} for {} {} {}", op, x.map(|v| v.to_string()), y.map(|v| v.to_string()), a, b, c));
+        }
+        // and the result is one of the converted operands
+        if let Some(r) = num(&x) {
+            let members: Vec<Option<f64>> = [a, b, c].iter().map(|v| num(&run(&op1(op, &json!({"var": "v"})), &json!({"v": v}), obs).ok().flatten())).collect();
+            if !members.iter().any(|m| *m == Some(r)) {
+                return Err(format!("{} of ({}, {}, {}) = {} is none of its converted operands {:?}", op, a, b, c, r, members));
+            }
+        }
+    }
+    // one operand: + and * both give parseFloat(a); - gives the negation of what {-:[a,0]} gives
+    let plus1 = run(&op1("+", &va), &data, obs)?;
+    let times1 = run(&op1("*", &va), &data, obs)?;
+    if !same(&plus1, &times1) {
+        return Err(format!("{{+:[a]}} = {:?} but {{*:[a]}} = {:?} for a = {}", plus1.map(|v| v.to_string()), times1.map(|v| v.to_string()), a));
+    }
+    let neg = run(&op1("-", &va), &data, obs)?;
+    let minus0 = run(&op2("-", &va, &json!(0)), &data, obs)?;
+    match (num(&neg), num(&minus0)) {
+        (Some(x), Some(y)) => {
+            if x != -y {
+                return Err(format!("one-operand - is not negation: {{-:[a]}} = {} but {{-:[a,0]}} = {} for a = {}", x, y, a));
+            }
+            exercised += 1;
+        }
+        (None, None) => {}
+        (x, y) => return Err(format!("{{-:[a]}} and {{-:[a,0]}} disagree about failing: {:?} vs {:?} for a = {}", x, y, a)),
+    }
+    // truncated remainder: sign of the dividend, magnitude below the divisor, and a = trunc(a/b)*b + r for small integers
+    let rem = run(&op2("%", &va, &vb), &data, obs)?;
+    if let Some(r) = num(&rem) {
+        let an = num(&run(&op2("-", &va, &json!(0)), &data, obs)?);
+        let bn = num(&run(&op2("-", &vb, &json!(0)), &data, obs)?);
+        if let (Some(an), Some(bn)) = (an, bn) {
+            if r != 0.0 && (r < 0.0) != (an < 0.0) {
+                return Err(format!("% must take the sign of the dividend: {} % {} = {}", an, bn, r));
+            }
+            if bn.is_finite() && r.abs() >= bn.abs() {
+                return Err(format!("|a % b| must be below |b|: {} % {} = {}", an, bn, r));
+            }
+            if an.abs() < 1e9 && bn.abs() < 1e9 && an.fract() == 0.0 && bn.fract() == 0.0 && bn != 0.0 {
+                let q = (an / bn).trunc();
+                if q * bn + r != an {
+                    return Err(format!("a = trunc(a/b)*b + a%b fails: {} % {} = {}", an, bn, r));
+                }
+            }
+            exercised += 1;
+        }
+    }
+    // a - b is the sum of a and the negation of b when both conversions agree (numbers only)
+    if a.is_number() && b.is_number() {
+        let diff_ = run(&op2("-", &va, &vb), &data, obs)?;
+        let via = run(&op2("+", &va, &op1("-", &vb)), &data, obs)?;
+        if !same(&diff_, &via) {
+            return Err(format!("a - b = {:?} but a + (-b) = {:?} for a = {} b = {}", diff_.map(|v| v.to_string()), via.map(|v| v.to_string()), a, b));
+        }
+    }
+    if exercised >= 3 {
+        obs.nt("laws on numeric operands");
+    } else {
+        obs.class("laws mostly on failing conversions");
+    }
+    Ok(())
+}
+
+fn gen_laws() -> BoxedStrategy<Value> {
+    let v = || prop_oneof![5 => gen::numbers(), 3 => gen::num_strings().prop_map(gen::j), 1 => arith_values()];
+    (v(), v(), v()).prop_map(|(a, b, c)| json!({"a": a, "b": b, "c": c})).boxed()
+}
+
 fn check_rules(case: &Value, obs: &mut Obs) -> Result<(), String> {
     let d = diff(rule_of(case), data_of(case), obs, TraceMode::Multiset)?;
     if d.model.is_ok() || d.model.is_err() {
@@ -228,6 +330,18 @@ pub fn property() -> Property {
                 check: check_tuple,
                 quick: 300_000,
                 thorough: 15_000_000,
+                small_stack: false,
+            },
+            Sub {
+                name: "laws",
+                about: "model-free consequences of exact IEEE arithmetic on generated operand triples: + * max min commute, max / min ignore operand order and return one of their converted operands, {+:[a]} = {*:[a]}, one-operand - is the negation of {-:[a,0]} (and fails exactly when it fails), % has the sign of the dividend, magnitude below the divisor and satisfies a = trunc(a/b)*b + a%b on small integers, a - b = a + (-b) on numbers.",
+                nontrivial: "at least three laws were exercised on successful conversions.",
+                strategy: Some(gen_laws),
+                fixed: None,
+                fixed_exhaustive: false,
+                check: check_laws,
+                quick: 40_000,
+                thorough: 2_000_000,
                 small_stack: false,
             },
             Sub {
